@@ -2,6 +2,7 @@ package main
 
 import (
 	"fmt"
+	"strings"
 )
 
 // C01-C04, C18: the framing family (DESIGN.md §6).
@@ -189,5 +190,45 @@ func checkC18(c *CheckCtx) error {
 }
 
 // placeholders filled in by later files
-func (c *CheckCtx) diffPairs() error    { return nil }
+// diffPairs: pairs that differ in as little as possible (C02's quantifier), through MatchSnapshot
+// and MatchStandaloneSnapshot, compared in a second process with colours on and off.
+func (c *CheckCtx) diffPairs() error {
+	long := strings.Repeat("q", 100000)
+	pairs := [][2]string{
+		{"a", "a "}, {"a", " a"}, {"a\n", "a"}, {"a\n\n", "a\n"}, {"a b", "a  b"}, {"A", "a"}, {"", " "}, {"", "\n"},
+		{"abc\xffdef", "abc\xfedef"}, {"l1\nabc\xffdef\nl3", "l1\nabc\xfedef\nl3"}, {"\xff", "\xfe"}, {"x\xc3\x28", "x\xc3\x29"},
+		{"\u00e9", "e\u0301"}, {"---", "--- "}, {"a\n---\nb", "a\n--- \nb"}, {"a\n---\nb", "a\n----\nb"}, {long + "0", long + "1"},
+		{"l1\nl2\nl3", "l1\nl2\nl3\n"}, {"x\ny", "x\n\ny"}, {"tab\tx", "tab\ty"}, {"\x00", "\x01"}, {"[TestGhost - 1]", "[TestGhost - 2]"},
+	}
+	crPairs := [][2]string{{"a\r\nb", "a\nb"}, {"a\r\n", "a\n"}, {"x\r", "x"}, {"l1\r\nl2\r\nl3", "l1\nl2\nl3"}, {"l1\nl2\r\nl3", "l1\nl2\nl3"}, {"a\r\rb", "a\rb"}}
+	var scs []*Scenario
+	n := 0
+	add := func(api string, st, rc string, color bool) {
+		n++
+		sc := &Scenario{ID: fmt.Sprintf("dp%d", n), Configs: stdConfigs(), Program: []string{"TestA"}}
+		mk := func(v string) []*Step {
+			return []*Step{{Op: "begin", Name: "TestA"}, {Op: "match", Name: "TestA", API: api, Cfg: "c", Val: strVal(v)}, {Op: "end", Name: "TestA"}}
+		}
+		sc.Procs = append(sc.Procs, &Proc{Spec: ProcSpec{}, Steps: mk(st)})
+		sc.Procs = append(sc.Procs, &Proc{Spec: ProcSpec{Color: color}, Steps: mk(rc)})
+		sc.Note = fmt.Sprintf("minimal difference via %s colours=%v: %q vs %q", api, color, clip(st), clip(rc))
+		scs = append(scs, sc)
+		c.nontrivial(sc.Note)
+	}
+	for _, p := range pairs {
+		for _, api := range []string{"snapshot", "ssnap"} {
+			for _, col := range []bool{false, true} {
+				add(api, p[0], p[1], col)
+				add(api, p[1], p[0], col)
+			}
+		}
+	}
+	for _, p := range crPairs {
+		for _, col := range []bool{false, true} {
+			add("ssnap", p[0], p[1], col)
+			add("ssnap", p[1], p[0], col)
+		}
+	}
+	return c.runSeq(scs)
+}
 func (c *CheckCtx) updateShapes() error { return nil }
